@@ -80,7 +80,9 @@ class C12(Prop):
                                                               "clone+uniquify", "flatten"])})
 
     def fixed_cases(self, tier):
-        return gen_ir.example_cases(tier, quick_limit=4000, thorough_limit=9000)
+        stress = [{"design": r, "edits": [], "sample": 0, "pre": "none"} for k, r in sorted(gen_ir.stress_recipes().items())
+                  if k.startswith("deep")]
+        return stress + gen_ir.example_cases(tier, quick_limit=4000, thorough_limit=9000)
 
     def run(self, case):
         import spydrnet as sdn
